@@ -413,9 +413,26 @@ class Executor:
     def box(self, st, v: V):
         """Val term of a value that is going to be stored in the heap / a container."""
         if v.kind == 'py':
-            # functions / classes stored in containers: an opaque constant per object
+            # functions / classes / enum members stored in containers or compared with symbolic values: an opaque
+            # constant per object; it is no None / number / string / bool, and the constants of different objects differ
             key = repr(v.py)[:200]
-            return z3.Const('pyobj!' + hashlib.md5(key.encode()).hexdigest()[:10], Val)
+            c = z3.Const('pyobj!' + hashlib.md5(key.encode()).hexdigest()[:10], Val)
+            seen = self.ctx.__dict__.setdefault('pyobjs', {})
+            if key not in seen:
+                seen[key] = c
+            for f in (z3.Not(Val.is_none(c)), z3.Not(Val.is_num(c)), z3.Not(Val.is_s(c)), z3.Not(Val.is_b(c))):
+                st.assume(f)
+            others = [o for k_, o in seen.items() if k_ != key]
+            if v.py and v.py[0] == 'enum':
+                ci = self.repo.find_class(v.py[1])
+                for n in (ci.class_attrs if ci is not None else []):
+                    k2 = repr(('enum', v.py[1], n))[:200]
+                    if k2 != key and k2 not in seen:
+                        seen[k2] = z3.Const('pyobj!' + hashlib.md5(k2.encode()).hexdigest()[:10], Val)
+                        others.append(seen[k2])
+            if others:
+                st.assume(z3.And(*[c != o for o in others]))
+            return c
         return v.t
 
     def store_subscript(self, st, obj: V, sl, v: V, node):
@@ -1402,6 +1419,22 @@ class Executor:
             return v_bool(z3.And(*[as_bool_raw(r) for r in res]))
         raise Unsupported('chained comparison of non-boolean results')
 
+    def py_vs_symbolic(self, st, l: V, r: V):
+        """`x == OBJ` / `x is OBJ` where OBJ is a python-level object (enum member, function, class) and x a symbolic
+        value: equality with the opaque constant of the object (a symbolic value of unknown kind MAY be that object;
+        answering False would silently kill the guarded branch)."""
+        pv, other = (l, r) if l.kind == 'py' else (r, l)
+        ok = other.kind
+        if ok in ('any', 'ref', 'opt'):
+            return other.t == self.box(st, pv)
+        if pv.py and pv.py[0] == 'enum':
+            ci = self.repo.find_class(pv.py[1])
+            bases = [b.split('.')[-1] for b in (ci.bases if ci is not None else [])]
+            if any(b in ('IntEnum', 'StrEnum', 'IntFlag') for b in bases) or ci is None:
+                raise Unsupported(f'comparison of a {ok} with a member of the value-comparable enum {pv.py[1]}')
+        # a plain object never equals a number / string / container / None
+        return z3.BoolVal(False)
+
     def compare(self, st, op, l: V, r: V, node) -> V:
         lk, rk = l.kind, r.kind
         opn = type(op).__name__
@@ -1413,7 +1446,7 @@ class Executor:
             elif lk == 'py' and rk == 'py':
                 c = z3.BoolVal(l.py == r.py)
             elif lk == 'py' or rk == 'py':
-                c = z3.BoolVal(False)
+                c = self.py_vs_symbolic(st, l, r)
             else:
                 c = l.t == r.t
             return v_bool(c if opn == 'Is' else z3.Not(c))
@@ -1443,8 +1476,11 @@ class Executor:
             return self.dunder(st, r, rdn, [l], node)
         if lk == 'py' or rk == 'py':
             if opn in ('Eq', 'NotEq'):
-                same = (lk == rk and l.py == r.py)
-                return v_bool(same if opn == 'Eq' else not same)
+                if lk == rk:
+                    same = z3.BoolVal(l.py == r.py)
+                else:
+                    same = self.py_vs_symbolic(st, l, r)
+                return v_bool(same if opn == 'Eq' else z3.Not(same))
             raise Unsupported('ordering of python objects')
         if lk in ('mat', 'vec') or rk in ('mat', 'vec'):
             nm = {'Eq': 'eq', 'NotEq': 'ne', 'Lt': 'lt', 'LtE': 'le', 'Gt': 'gt', 'GtE': 'ge'}[opn]
@@ -1983,6 +2019,9 @@ class Executor:
                     return v_py(('specseq', n_t, a_t, ety))
                 res_t = uf('F!' + con.qualname, *sorts)(*argts, *reads)
             else:
+                if st.bound:
+                    # one fresh constant would stand for the results of ALL values of the bound variable
+                    raise Unsupported(f'call of {con.qualname} (contract not pure) under a quantifier / comprehension binder')
                 res_t = fresh_val('ret!' + fi.name)
             res = V(res_t, rty)
             st.assume_type(res)
